@@ -10,7 +10,7 @@
    last been told that this value is current. *)
 From Util Require Import Common.Base Common.ListLemmas RefCount.Model RefCount.Spec RefCount.Proofs RefCount.ProofsC08 RefCount.ProofsC08b
   RefCount.ProofsCodec.
-From Util Require Import RefCount.Spec RefCount.ProofsMon RefCount.ProofsMon2 RefCount.ProofsMonThm.
+From Util Require Import RefCount.Spec RefCount.ProofsMon RefCount.ProofsMon2 RefCount.ProofsMonThm RefCount.ProofsMonThm2.
 Open Scope nat_scope.
 
 (* at most once *)
@@ -165,21 +165,26 @@ Example c08_example_released :
 Proof. vm_compute. repeat split; reflexivity. Qed.
 
 (* ---- the monitors that are evaluated on the implementation's traces, tied to this model ----
-   For EVERY configuration the codec accepts and EVERY list of harness events: on the observations the model itself produces
-   (eager schedule of Spec.hstep; the run stops at the first event the model does not accept) no monitor clause in [proved]
-   is ever false: clauses 8.1 (at most once), 8.2 (target / references at the moment of the call), 8.3 (allowed causes), 8.4 (no leak) (and (p, 9): the model's observations always parse).  [mon_only keep] is [Spec.mon] with the reported clauses filtered
-   by [keep]; [proved] is the list below.  So these monitors cannot raise an alarm on an implementation that behaves like the
-   model, and the model satisfies the property in exactly the form the checks evaluate it. *)
+   THE FULL STATEMENT.  For EVERY configuration the codec accepts and EVERY list of harness events: on the observations the model
+   itself produces (eager schedule of Spec.hstep; the run stops at the first event the model does not accept) the monitors
+   [Spec.mon] - ALL clauses of C08, C09 and C10, nothing filtered - report nothing; in particular the clauses 8.1 (every release function at most once), 8.2 (target / references at the moment of the call), 8.3 (allowed causes), 8.4 (no leak)
+   (and the model's observations always parse).  So these monitors cannot raise an alarm on an implementation that behaves like
+   the model, and the model satisfies the property in exactly the form the checks evaluate it.  (In the constant-value
+   configuration [k; 1] Spec.mon judges only the Access clauses of C10.) *)
+Theorem c08_model_satisfies_monitors : forall cfg evs,
+  monitor mon 0 (minit cfg) [] evs (run_obs step_opt (hinit cfg) evs) = [].
+Proof. exact model_satisfies_monitors. Qed.
+Print Assumptions c08_model_satisfies_monitors.
+
+(* hence the extracted checker [run_check_refcount] reports nothing at all on any history that the model accepts completely *)
+Theorem c08_model_run_check_clean : forall cfg evs,
+  length (run_obs step_opt (hinit cfg) evs) = length evs ->
+  run_check_refcount cfg evs (run_obs step_opt (hinit cfg) evs) = [].
+Proof. exact model_run_check_clean. Qed.
+Print Assumptions c08_model_run_check_clean.
+
+(* the clause-wise corollary (kept: the partial statement the full one supersedes) *)
 Theorem c08_model_satisfies_monitors_clauses : forall cfg evs,
   monitor (mon_only proved) 0 (minit cfg) [] evs (run_obs step_opt (hinit cfg) evs) = [].
 Proof. exact model_satisfies_monitors_clauses. Qed.
 Print Assumptions c08_model_satisfies_monitors_clauses.
-
-Theorem c08_model_run_check_clean_clauses : forall cfg evs,
-  length (run_obs step_opt (hinit cfg) evs) = length evs ->
-  run_check step_opt (mon_only proved) (hinit cfg) (minit cfg) evs (run_obs step_opt (hinit cfg) evs) = [].
-Proof. exact model_run_check_clean_clauses. Qed.
-Print Assumptions c08_model_run_check_clean_clauses.
-
-Example c08_proved_clauses : forallb proved [(8, 1); (8, 2); (8, 3); (8, 4); (8, 9)]%nat = true.
-Proof. reflexivity. Qed.
